@@ -150,7 +150,7 @@ theorem Inv_es (c : Config) (i : Nat) (t t' : Thread) (es' : Ents) (h : Inv c) (
     (huses : ∀ km, uses t'.pc = some km → uses t.pc = some km)
     (hcrit : ∀ k, crit t'.pc = some k → crit t.pc = some k)
     (hpost : ∀ k, post t'.pc = some k → lk k es' ≠ none) :
-    Inv { files := c.files, es := es', locks := c.locks, held := c.held, nextMx := c.nextMx, reads := c.reads, th := c.th.set i t' } := by
+    Inv { files := c.files, broken := c.broken, es := es', locks := c.locks, held := c.held, nextMx := c.nextMx, reads := c.reads, th := c.th.set i t' } := by
   refine { h1 := h.h1, h2 := ?_, i3 := ?_, i4 := ?_, i5 := ?_, i6 := ?_, i7 := h.i7, i8 := ?_ }
   · intro j tj k m hj hh
     rcases get_set _ _ _ _ _ hj with ⟨rfl, rfl⟩ | ⟨_, hj⟩
@@ -181,7 +181,7 @@ theorem Inv_es (c : Config) (i : Nat) (t t' : Thread) (es' : Ents) (h : Inv c) (
 /-- a new mutex is put into the table -/
 theorem Inv_table (c : Config) (i : Nat) (t t' : Thread) (k : Key) (h : Inv c) (hi : c.th[i]? = some t)
     (hnone : lookupMx k c.locks = none) (hpc : t'.pc = PC.instAcquire k c.nextMx) :
-    Inv { files := c.files, es := c.es, locks := (k, c.nextMx) :: c.locks, held := c.held, nextMx := c.nextMx + 1,
+    Inv { files := c.files, broken := c.broken, es := c.es, locks := (k, c.nextMx) :: c.locks, held := c.held, nextMx := c.nextMx + 1,
           reads := c.reads, th := c.th.set i t' } := by
   refine { h1 := h.h1, h2 := ?_, i3 := ?_, i4 := ?_, i5 := h.i5, i6 := ?_, i7 := h.i7, i8 := ?_ }
   · intro j tj k' m hj hh
@@ -215,7 +215,7 @@ theorem Inv_table (c : Config) (i : Nat) (t t' : Thread) (k : Key) (h : Inv c) (
 /-- `nameLock.Lock()` succeeds -/
 theorem Inv_acquire (c : Config) (i : Nat) (t t' : Thread) (k : Key) (m : Mx) (h : Inv c) (hi : c.th[i]? = some t)
     (hfree : c.held.any (fun p => p.1 == m) = false) (hpc0 : t.pc = PC.instAcquire k m) (hpc : t'.pc = PC.instCheck k m) :
-    Inv { files := c.files, es := c.es, locks := c.locks, held := (m, i) :: c.held, nextMx := c.nextMx,
+    Inv { files := c.files, broken := c.broken, es := c.es, locks := c.locks, held := (m, i) :: c.held, nextMx := c.nextMx,
           reads := c.reads, th := c.th.set i t' } := by
   refine { h1 := ?_, h2 := ?_, i3 := ?_, i4 := ?_, i5 := h.i5, i6 := ?_, i7 := h.i7, i8 := ?_ }
   · simp only [List.map_cons, List.nodup_cons]
@@ -298,7 +298,7 @@ theorem Inv_enter (c : Config) (i : Nat) (t t' : Thread) (k : Key) (m : Mx) (h :
 /-- the instantiator runs: the one read of the file -/
 theorem Inv_run (c : Config) (i : Nat) (t t' : Thread) (k : Key) (m : Mx) (v : V) (h : Inv c) (hi : c.th[i]? = some t)
     (hpc0 : t.pc = PC.instRun k m) (hpc : t'.pc = PC.instRet k m) :
-    Inv { files := c.files, es := (setEntry c.es k (some v)).1, locks := c.locks, held := c.held, nextMx := c.nextMx,
+    Inv { files := c.files, broken := c.broken, es := (setEntry c.es k (some v)).1, locks := c.locks, held := c.held, nextMx := c.nextMx,
           reads := k :: c.reads, th := c.th.set i t' } := by
   have hc0 : crit t.pc = some k := by rw [hpc0]; rfl
   have hzero := h.i4 _ t k hi hc0
@@ -336,10 +336,52 @@ theorem Inv_run (c : Config) (i : Nat) (t t' : Thread) (k : Key) (m : Mx) (v : V
     · rw [hpc] at hp; simp only [post, Option.some.injEq] at hp; subst hp; exact lk_setEntry_same _ _ _
     · exact lk_setEntry_mono _ _ _ _ (h.i8 _ tj k' hj hp)
 
+/-- the instantiator runs and RAISES: the one read of the file; the entry map is left as it is (the placeholder stays) -/
+theorem Inv_run_broken (c : Config) (i : Nat) (t t' : Thread) (k : Key) (m : Mx) (a : Ans) (h : Inv c) (hi : c.th[i]? = some t)
+    (hpc0 : t.pc = PC.instRun k m) (hpc : t'.pc = PC.instUnlock k m a) :
+    Inv { files := c.files, broken := c.broken, es := c.es, locks := c.locks, held := c.held, nextMx := c.nextMx,
+          reads := k :: c.reads, th := c.th.set i t' } := by
+  have hc0 : crit t.pc = some k := by rw [hpc0]; rfl
+  have hzero := h.i4 _ t k hi hc0
+  have hpost : lk k c.es ≠ none := h.i8 _ t k hi (by rw [hpc0]; rfl)
+  refine { h1 := h.h1, h2 := ?_, i3 := ?_, i4 := ?_, i5 := ?_, i6 := ?_, i7 := ?_, i8 := ?_ }
+  · intro j tj k' m' hj hh
+    rcases get_set _ _ _ _ _ hj with ⟨rfl, rfl⟩ | ⟨_, hj⟩
+    · rw [hpc] at hh; exact h.h2 _ t k' m' hi (by rw [hpc0]; simpa [holds] using hh)
+    · exact h.h2 _ tj k' m' hj hh
+  · intro j tj k' m' hn hj hu
+    rcases get_set _ _ _ _ _ hj with ⟨rfl, rfl⟩ | ⟨_, hj⟩
+    · rw [hpc] at hu; exact h.i3 _ t k' m' hn hi (by rw [hpc0]; simpa [uses] using hu)
+    · exact h.i3 _ tj k' m' hn hj hu
+  · intro j tj k' hj hc
+    rcases get_set _ _ _ _ _ hj with ⟨rfl, rfl⟩ | ⟨hne, hj⟩
+    · rw [hpc] at hc; simp [crit] at hc
+    · by_cases hk : k = k'
+      · subst hk; exact absurd (h.i6 _ _ tj t k hj hi hc hc0) hne
+      · rw [List.count_cons_of_ne hk]; exact h.i4 _ tj k' hj hc
+  · intro k' hn
+    by_cases hk : k = k'
+    · subst hk; exact absurd hn hpost
+    · rw [List.count_cons_of_ne hk]; exact h.i5 k' hn
+  · intro j1 j2 t1 t2 k' g1 g2 c1 c2
+    rcases get_set _ _ _ _ _ g1 with ⟨e1, e1'⟩ | ⟨_, g1'⟩
+    · subst e1'; rw [hpc] at c1; simp [crit] at c1
+    · rcases get_set _ _ _ _ _ g2 with ⟨e2, e2'⟩ | ⟨_, g2'⟩
+      · subst e2'; rw [hpc] at c2; simp [crit] at c2
+      · exact h.i6 _ _ t1 t2 k' g1' g2' c1 c2
+  · intro k'
+    by_cases hk : k = k'
+    · subst hk; rw [List.count_cons_self, hzero]; exact Nat.le_refl _
+    · rw [List.count_cons_of_ne hk]; exact h.i7 k'
+  · intro j tj k' hj hp
+    rcases get_set _ _ _ _ _ hj with ⟨rfl, rfl⟩ | ⟨_, hj⟩
+    · rw [hpc] at hp; simp only [post, Option.some.injEq] at hp; subst hp; exact hpost
+    · exact h.i8 _ tj k' hj hp
+
 /-- `nameLock.Unlock()` -/
 theorem Inv_unlock (c : Config) (i : Nat) (t t' : Thread) (k : Key) (m : Mx) (a : Ans) (h : Inv c) (hi : c.th[i]? = some t)
     (hpc0 : t.pc = PC.instUnlock k m a) (hpc : t'.pc = PC.instDelete k a) :
-    Inv { files := c.files, es := c.es, locks := c.locks, held := c.held.filter (fun p => p.1 != m), nextMx := c.nextMx,
+    Inv { files := c.files, broken := c.broken, es := c.es, locks := c.locks, held := c.held.filter (fun p => p.1 != m), nextMx := c.nextMx,
           reads := c.reads, th := c.th.set i t' } := by
   have hh0 : holds t.pc = some (k, m) := by rw [hpc0]; rfl
   refine { h1 := ?_, h2 := ?_, i3 := ?_, i4 := ?_, i5 := h.i5, i6 := ?_, i7 := h.i7, i8 := ?_ }
@@ -376,7 +418,7 @@ theorem Inv_unlock (c : Config) (i : Nat) (t t' : Thread) (k : Key) (m : Mx) (a 
 /-- the mutex is taken out of the table (only ever when the entry is no longer nil) -/
 theorem Inv_delete (c : Config) (i : Nat) (t t' : Thread) (k : Key) (a : Ans) (h : Inv c) (hi : c.th[i]? = some t)
     (hpc0 : t.pc = PC.instDelete k a) (hpc : t'.pc = PC.idle) :
-    Inv { files := c.files, es := c.es, locks := c.locks.filter (fun p => p.1 != k), held := c.held, nextMx := c.nextMx,
+    Inv { files := c.files, broken := c.broken, es := c.es, locks := c.locks.filter (fun p => p.1 != k), held := c.held, nextMx := c.nextMx,
           reads := c.reads, th := c.th.set i t' } := by
   have hnn : lk k c.es ≠ none := h.i8 _ t k hi (by rw [hpc0]; rfl)
   refine { h1 := h.h1, h2 := ?_, i3 := ?_, i4 := ?_, i5 := h.i5, i6 := ?_, i7 := h.i7, i8 := ?_ }
@@ -405,7 +447,7 @@ theorem Inv_delete (c : Config) (i : Nat) (t t' : Thread) (k : Key) (a : Ans) (h
     · exact h.i8 _ tj k' hj hp
 
 theorem withShared_eq (c : Config) (s : Shared) (th : List Thread) :
-    c.withShared s th = { files := c.files, es := s.es, locks := s.locks, held := s.held, nextMx := s.nextMx, reads := s.reads, th := th } := rfl
+    c.withShared s th = { files := c.files, broken := c.broken, es := s.es, locks := s.locks, held := s.held, nextMx := s.nextMx, reads := s.reads, th := th } := rfl
 
 /-- every step of every thread keeps the invariant -/
 theorem Inv_step (c : Config) (i : Nat) (h : Inv c) : Inv (stepAt c i) := by
@@ -432,7 +474,9 @@ theorem Inv_step (c : Config) (i : Nat) (h : Inv c) : Inv (stepAt c i) := by
     | ldFind k =>
       simp only [stepThread]
       split
-      · apply Inv_local c i _ _ h hi <;> intro x hx <;> simp_all [holds, uses, crit, post]
+      · split
+        · apply Inv_local c i _ _ h hi <;> intro x hx <;> simp_all [holds, uses, crit, post]
+        · apply Inv_local c i _ _ h hi <;> intro x hx <;> simp_all [holds, uses, crit, post]
       · apply Inv_local c i _ _ h hi <;> intro x hx <;> simp_all [holds, uses, crit, post]
     | ldCacheMiss k =>
       simp only [stepThread, withShared_eq, Config.shared]
@@ -489,11 +533,14 @@ theorem Inv_step (c : Config) (i : Nat) (h : Inv c) : Inv (stepAt c i) := by
       split
       · rename_i v hv
         exact Inv_run c i _ _ k m v h hi rfl rfl
-      · apply Inv_local c i _ _ h hi
-        · intro x hx; simpa [holds] using hx
-        · intro x hx; exact Or.inl (by simpa [uses] using hx)
-        · intro x hx; simp [crit] at hx
-        · intro x hx; exact Or.inl (by simpa [post] using hx)
+      · split
+        · rename_i code hcode
+          exact Inv_run_broken c i _ _ k m (.reported code) h hi rfl rfl
+        · apply Inv_local c i _ _ h hi
+          · intro x hx; simpa [holds] using hx
+          · intro x hx; exact Or.inl (by simpa [uses] using hx)
+          · intro x hx; simp [crit] at hx
+          · intro x hx; exact Or.inl (by simpa [post] using hx)
     | instRet k m =>
       simp only [stepThread]
       apply Inv_local c i _ _ h hi
@@ -508,20 +555,24 @@ theorem Inv_step (c : Config) (i : Nat) (h : Inv c) : Inv (stepAt c i) := by
       simp only [stepThread]
       exact Inv_delete c i _ _ k a h hi rfl rfl
 
-theorem Inv_init (files : List (Key × V)) (progs : List (List FOp)) : Inv (Config.init files progs) := by
-  have hidle : ∀ (i : Nat) (t : Thread), (Config.init files progs).th[i]? = some t → t.pc = PC.idle := by
+theorem Inv_initB (files : List (Key × V)) (broken : List (Key × String)) (progs : List (List FOp)) :
+    Inv (Config.initB files broken progs) := by
+  have hidle : ∀ (i : Nat) (t : Thread), (Config.initB files broken progs).th[i]? = some t → t.pc = PC.idle := by
     intro i t ht
     have := List.mem_of_getElem? ht
-    simp only [Config.init, List.mem_map] at this
+    simp only [Config.initB, List.mem_map] at this
     obtain ⟨p, _, rfl⟩ := this; rfl
-  refine { h1 := by simp [Config.init], h2 := ?_, i3 := ?_, i4 := ?_, i5 := ?_, i6 := ?_, i7 := ?_, i8 := ?_ }
+  refine { h1 := by simp [Config.initB], h2 := ?_, i3 := ?_, i4 := ?_, i5 := ?_, i6 := ?_, i7 := ?_, i8 := ?_ }
   · intro i t k m ht hh; rw [hidle i t ht] at hh; simp [holds] at hh
   · intro i t k m _ ht hu; rw [hidle i t ht] at hu; simp [uses] at hu
   · intro i t k ht hc; rw [hidle i t ht] at hc; simp [crit] at hc
-  · intro k _; simp [Config.init]
+  · intro k _; simp [Config.initB]
   · intro i j ti tj k hti _ hc; rw [hidle i ti hti] at hc; simp [crit] at hc
-  · intro k; simp [Config.init]
+  · intro k; simp [Config.initB]
   · intro i t k ht hp; rw [hidle i t ht] at hp; simp [post] at hp
+
+theorem Inv_init (files : List (Key × V)) (progs : List (List FOp)) : Inv (Config.init files progs) :=
+  Inv_initB files [] progs
 
 theorem Inv_reachable {c0 c : Config} (h0 : Inv c0) (h : Reachable c0 c) : Inv c := by
   induction h with
@@ -562,7 +613,11 @@ theorem Sourced_step (c : Config) (i : Nat) (h : Sourced c) : Sourced (stepAt c 
       · exact h
       · split <;> exact h
     | ldCheck k => simp only [stepThread]; split <;> exact h
-    | ldFind k => simp only [stepThread]; split <;> exact h
+    | ldFind k =>
+      simp only [stepThread]
+      split
+      · split <;> exact h
+      · exact h
     | ldCacheMiss k =>
       simp only [stepThread]
       intro k' v hb
@@ -586,7 +641,10 @@ theorem Sourced_step (c : Config) (i : Nat) (h : Sourced c) : Sourced (stepAt c 
         rcases lk_setEntry_bound_inv _ _ _ _ _ hb with hb' | ⟨hk, hv⟩
         · exact ⟨List.mem_cons_of_mem _ (h k' v hb').1, (h k' v hb').2⟩
         · subst hk; cases hv; exact ⟨List.mem_cons_self, hv0⟩
-      · exact h
+      · split
+        · intro k' v hb
+          exact ⟨List.mem_cons_of_mem _ (h k' v hb).1, (h k' v hb).2⟩
+        · exact h
     | instRet k m => simp only [stepThread]; exact h
     | instUnlock k m a => simp only [stepThread]; exact h
     | instDelete k a => simp only [stepThread]; exact h
@@ -596,8 +654,12 @@ theorem Sourced_reachable {c0 c : Config} (h0 : Sourced c0) (h : Reachable c0 c)
   | init => exact h0
   | step i _ ih => exact Sourced_step _ i ih
 
-theorem Sourced_init (files : List (Key × V)) (progs : List (List FOp)) : Sourced (Config.init files progs) := by
-  intro k v hb; simp [Config.init, lk] at hb
+theorem Sourced_initB (files : List (Key × V)) (broken : List (Key × String)) (progs : List (List FOp)) :
+    Sourced (Config.initB files broken progs) := by
+  intro k v hb; simp [Config.initB, lk] at hb
+
+theorem Sourced_init (files : List (Key × V)) (progs : List (List FOp)) : Sourced (Config.init files progs) :=
+  Sourced_initB files [] progs
 
 /-- running threads one step at a time -/
 def iter (c : Config) : List Nat → Config
